@@ -540,6 +540,7 @@ pub fn visit_map<R: Read>(visitor: VisitorS, de: &mut Deserializer<R>, len: usiz
 //@@ type file=serde_amqp/src/util.rs kind=enum name=IsArrayElement
 //@@ end
 //@@ include varspec.rs
+//@@ include fixspec.rs
 /// String::from_utf8: succeeds exactly on UTF-8, and then the string's octets are the input
 #[verifier::external_body]
 pub fn string_from_utf8(buf: Vec<u8>) -> (r: Result<String, FromUtf8Error>)
@@ -839,6 +840,89 @@ impl<R: Read> Deserializer<R> {
 //@@ end
 }
 
+
+// ================================================================ fixed-width primitives of the decoder (de.rs parse_*), in and outside arrays
+/// value and total encoded length (constructor included) of the fixed-width encodings at the front of `u` (AMQP 1.0 part 1, 1.6)
+pub open spec fn dec_u64(u: Seq<u8>) -> Option<(u64, int)> {
+    if u.len() >= 1 && u[0] == 0x44 { Some((0u64, 1int)) }
+    else if u.len() >= 2 && u[0] == 0x53 { Some((u[1] as u64, 2int)) }
+    else if u.len() >= 9 && u[0] == 0x80 { Some((sp_be64(u.subrange(1, 9)), 9int)) }
+    else { None }
+}
+pub open spec fn dec_u32(u: Seq<u8>) -> Option<(u32, int)> {
+    if u.len() >= 1 && u[0] == 0x43 { Some((0u32, 1int)) }
+    else if u.len() >= 2 && u[0] == 0x52 { Some((u[1] as u32, 2int)) }
+    else if u.len() >= 5 && u[0] == 0x70 { Some((sp_be32(u.subrange(1, 5)), 5int)) }
+    else { None }
+}
+pub open spec fn dec_u8(u: Seq<u8>) -> Option<(u8, int)> { if u.len() >= 2 && u[0] == 0x50 { Some((u[1], 2int)) } else { None } }
+pub open spec fn dec_bool(u: Seq<u8>) -> Option<(bool, int)> {
+    if u.len() >= 1 && u[0] == 0x41 { Some((true, 1int)) }
+    else if u.len() >= 1 && u[0] == 0x42 { Some((false, 1int)) }
+    else if u.len() >= 2 && u[0] == 0x56 && u[1] == 0 { Some((false, 2int)) }
+    else if u.len() >= 2 && u[0] == 0x56 && u[1] == 1 { Some((true, 2int)) }
+    else { None }
+}
+
+impl<R: Read> Deserializer<R> {
+//@@ fn file=serde_amqp/src/de.rs impl=`impl<'de, R: Read<'de>> Deserializer<R>` name=parse_u64
+//@@ qmark
+//@@ subst `|| Error::unexpected_eof("parse_u64")` => `|| -> (o: Error) { Error::unexpected_eof("parse_u64") }` rule=R18
+//@@ subst `|| Error::unexpected_eof("Expecting small u64")` => `|| -> (o: Error) { Error::unexpected_eof("Expecting small u64") }` rule=R18
+//@@ subst `u64::from_be_bytes(` => `from_be64(` rule=R14
+//@@ spec
+    requires bounded(old(self).reader),
+    ensures
+        final(self).reader.wf(), final(self).elem_format_code == old(self).elem_format_code,
+        r is Ok ==> dec_u64(eff_unread(*old(self))) is Some && dec_u64(eff_unread(*old(self)))->Some_0.0 == r->Ok_0
+            && final(self).reader.unread() =~= eff_unread(*old(self)).skip(dec_u64(eff_unread(*old(self)))->Some_0.1),        // [C05.ulong.decoding] [C03.rt.decoder-premise] ulong0 / smallulong / ulong, each by its AMQP layout, exactly its octets consumed; inside an array the constructor is the array's
+        old(self).reader.reliable() && dec_u64(eff_unread(*old(self))) is Some ==> r is Ok,                                     // [C05.ulong.every-variant-accepted]
+//@@ end
+
+//@@ fn file=serde_amqp/src/de.rs impl=`impl<'de, R: Read<'de>> Deserializer<R>` name=parse_u32
+//@@ qmark
+//@@ blockarms
+//@@ subst `|| Error::unexpected_eof("parse_u32")` => `|| -> (o: Error) { Error::unexpected_eof("parse_u32") }` rule=R18
+//@@ subst `self .reader .read_const_bytes() .map(u32::from_be_bytes) .map_err(Into::into)` => `(match self.reader.read_const_bytes() { Ok(b) => Ok(from_be32(b)), Err(e) => Err(e.err_into()) })` rule=R19
+//@@ subst `self.reader.next().map_err(Into::into).and_then(|b| { b.ok_or_else(|| Error::unexpected_eof("Expecting small u32")) .map(|byte| byte as u32) })` => `(match self.reader.next() { Ok(Some(byte)) => Ok(byte as u32), Ok(None) => Err(Error::unexpected_eof("Expecting small u32")), Err(e) => Err(e.err_into()) })` rule=R19
+//@@ spec
+    requires bounded(old(self).reader),
+    ensures
+        final(self).reader.wf(), final(self).elem_format_code == old(self).elem_format_code,
+        r is Ok ==> dec_u32(eff_unread(*old(self))) is Some && dec_u32(eff_unread(*old(self)))->Some_0.0 == r->Ok_0
+            && final(self).reader.unread() =~= eff_unread(*old(self)).skip(dec_u32(eff_unread(*old(self)))->Some_0.1),        // [C05.uint.decoding] [C03.rt.decoder-premise] uint0 / smalluint / uint
+        old(self).reader.reliable() && dec_u32(eff_unread(*old(self))) is Some ==> r is Ok,                                     // [C05.uint.every-variant-accepted]
+//@@ end
+
+//@@ fn file=serde_amqp/src/de.rs impl=`impl<'de, R: Read<'de>> Deserializer<R>` name=parse_u8
+//@@ qmark
+//@@ blockarms
+//@@ subst `|| Error::unexpected_eof("parse_u8")` => `|| -> (o: Error) { Error::unexpected_eof("parse_u8") }` rule=R18
+//@@ subst `self .reader .next() .map_err(Into::into) .and_then(|b| b.ok_or_else(|| Error::unexpected_eof("Expecting u8")))` => `(match self.reader.next() { Ok(Some(byte)) => Ok(byte), Ok(None) => Err(Error::unexpected_eof("Expecting u8")), Err(e) => Err(e.err_into()) })` rule=R19
+//@@ spec
+    requires bounded(old(self).reader),
+    ensures
+        final(self).reader.wf(), final(self).elem_format_code == old(self).elem_format_code,
+        r is Ok ==> dec_u8(eff_unread(*old(self))) == Some((r->Ok_0, 2int))
+            && final(self).reader.unread() =~= eff_unread(*old(self)).skip(2),                                                  // [C05.ubyte.decoding] [C03.rt.decoder-premise]
+        old(self).reader.reliable() && dec_u8(eff_unread(*old(self))) is Some ==> r is Ok,                                      // [C05.ubyte.accepted]
+//@@ end
+
+//@@ fn file=serde_amqp/src/de.rs impl=`impl<'de, R: Read<'de>> Deserializer<R>` name=parse_bool
+//@@ qmark
+//@@ blockarms
+//@@ subst `|| Error::unexpected_eof("parse_bool")` => `|| -> (o: Error) { Error::unexpected_eof("parse_bool") }` rule=R18
+//@@ subst `self.reader.next().map_err(Into::into).and_then(|b| { b.ok_or_else(|| Error::unexpected_eof("Expecting bool byte")) })?` => `(match self.reader.next() { Ok(Some(byte)) => byte, Ok(None) => return Err(Error::unexpected_eof("Expecting bool byte")), Err(e) => return Err(e.err_into()) })` rule=R19
+//@@ spec
+    requires bounded(old(self).reader),
+    ensures
+        final(self).reader.wf(), final(self).elem_format_code == old(self).elem_format_code,
+        r is Ok ==> dec_bool(eff_unread(*old(self))) is Some && dec_bool(eff_unread(*old(self)))->Some_0.0 == r->Ok_0
+            && final(self).reader.unread() =~= eff_unread(*old(self)).skip(dec_bool(eff_unread(*old(self)))->Some_0.1),       // [C05.bool.decoding] [C03.rt.decoder-premise] true 0x41, false 0x42, boolean 0x56 + 00/01 (anything else in that octet is refused)
+        old(self).reader.reliable() && dec_bool(eff_unread(*old(self))) is Some ==> r is Ok,                                    // [C05.bool.every-variant-accepted]
+//@@ end
+}
+
 // ================================================================ the descriptor of a described value (de.rs parse_described_identifier)
 /// what the visitor is given (visit_u64 / visit_str are outside this unit: a visitor either fails or returns a value that remembers what it was given)
 pub enum Ident { Code(u64), Name(Seq<char>) }
@@ -930,6 +1014,45 @@ pub proof fn lemma_var_round_trip(c8: u8, c32: u8, d: Seq<u8>, enc: Seq<u8>, res
         assert(u.subrange(1, 5) =~= be32(d.len() as u32));
         assert(u.subrange(5, 5 + d.len() as int) =~= d);
     }
+}
+
+pub proof fn lemma_be64_inverse(x: u64)
+    ensures sp_be64(be64(x)) == x, be64(x).len() == 8,
+{
+    assert((((((x >> 56) as u8) as u64) << 56 | ((((x >> 48) & 0xff) as u8) as u64) << 48 | ((((x >> 40) & 0xff) as u8) as u64) << 40 | ((((x >> 32) & 0xff) as u8) as u64) << 32
+        | ((((x >> 24) & 0xff) as u8) as u64) << 24 | ((((x >> 16) & 0xff) as u8) as u64) << 16 | ((((x >> 8) & 0xff) as u8) as u64) << 8 | (((x & 0xff) as u8) as u64)) as u64) == x) by (bit_vector);
+}
+/// the octets the decoder sees for a value written at array position `e`: the array's element constructor `code` is held in elem_format_code (eff_unread puts it
+/// in front), whether the encoder wrote it with this element (first) or not (later ones)
+pub open spec fn seen(code: u8, enc: Seq<u8>, e: IsArrayElement) -> Seq<u8> { if e is OtherElement { seq![code] + enc } else { enc } }
+/// [C03.fixed.round-trip] every ulong / uint / ubyte the encoder writes (contract of unit SERFIX: enc_*), in whichever position, followed by anything, is read back
+/// by the decoder's layout (dec_*: contract of parse_* above) as the same value, and exactly its octets are consumed
+pub proof fn lemma_fixed_round_trip_u64(v: u64, e: IsArrayElement, rest: Seq<u8>)
+    ensures dec_u64(seen(0x80, enc_u64(v, e), e) + rest) == Some((v, seen(0x80, enc_u64(v, e), e).len() as int)),
+{
+    lemma_be64_inverse(v);
+    let s = seen(0x80, enc_u64(v, e), e);
+    let u = s + rest;
+    if e is False && v == 0 { assert(u[0] == 0x44); }
+    else if e is False && v <= 255 { assert(u[0] == 0x53 && u[1] == v as u8); assert(v as u8 as u64 == v) by (bit_vector) requires v <= 255; }
+    else { assert(s =~= seq![0x80u8] + be64(v)); assert(u[0] == 0x80); assert(u.subrange(1, 9) =~= be64(v)); }
+}
+pub proof fn lemma_fixed_round_trip_u32(v: u32, e: IsArrayElement, rest: Seq<u8>)
+    ensures dec_u32(seen(0x70, enc_u32(v, e), e) + rest) == Some((v, seen(0x70, enc_u32(v, e), e).len() as int)),
+{
+    lemma_be32_inverse(v);
+    let s = seen(0x70, enc_u32(v, e), e);
+    let u = s + rest;
+    if e is False && v == 0 { assert(u[0] == 0x43); }
+    else if e is False && v <= 255 { assert(u[0] == 0x52 && u[1] == v as u8); assert(v as u8 as u32 == v) by (bit_vector) requires v <= 255; }
+    else { assert(s =~= seq![0x70u8] + be32(v)); assert(u[0] == 0x70); assert(u.subrange(1, 5) =~= be32(v)); }
+}
+pub proof fn lemma_fixed_round_trip_u8(v: u8, e: IsArrayElement, rest: Seq<u8>)
+    ensures dec_u8(seen(0x50, enc_u8(v, e), e) + rest) == Some((v, 2int)),
+{
+    let s = seen(0x50, enc_u8(v, e), e);
+    assert(s =~= seq![0x50u8, v]);
+    assert((s + rest)[0] == 0x50 && (s + rest)[1] == v);
 }
 
 } // verus!
